@@ -18,7 +18,7 @@ type M = map[string]any
 type Case struct {
 	ID     int `json:"id"`
 	C      M   `json:"c"`
-	Expect M   `json:"expect"`
+	Expect any `json:"expect"`
 }
 
 // Obs is one line of obs.ndjson.
